@@ -138,6 +138,26 @@ theorem minDeploy_eq_generated (e : Env) (s : Int) (c : Unit) (h : Nat) (v : Int
   simp only [hs]
   by_cases hc : committeeOk e.committee wit = true <;> by_cases h1 : v < 0 <;> simp [*]
 
+/-- stackitem BigInteger.IsUint64 -/
+def isUint64 (v : Int) : Bool := decide (0 ≤ v) && decide (v ≤ 18446744073709551615)
+
+/-- the role check of designateAsRole in the model (first guard of `gdesignate`) = Designate.getRole translated from
+    designate.go (leaves: TryInteger succeeded, IsUint64 / Uint64 of the argument, noderoles.IsValid of the truncated role) -/
+theorem getRole_eq_generated (r : Int) :
+    (GoFuncs.designateGetRole r false (isUint64 r) r (roleList.contains (r % 256).toNat)).2 =
+      !(decide (r < 0) || decide (r > 255) || !roleList.contains r.toNat) := by
+  unfold GoFuncs.designateGetRole isUint64
+  by_cases h0 : r < 0
+  · have : ¬ (0 ≤ r) := by omega
+    simp [h0, this]
+  · by_cases h1 : r > 255
+    · by_cases h2 : r ≤ 18446744073709551615 <;> simp [h0, h1, h2] <;> omega
+    · have hm : r % 256 = r := by omega
+      have h2 : r ≤ 18446744073709551615 := by omega
+      have h3 : 0 ≤ r := by omega
+      have h4 : r ≤ 255 := by omega
+      simp [h0, h1, h2, h3, h4, hm]
+
 -- the natives model's own setters ------------------------------------------------------------------------------------
 
 theorem setFeePerByte_eq_generated (w : TxView) (tx : Tx) (v id : Int) (h : tx.op = .setFeePerByte v) :
